@@ -265,6 +265,33 @@ def run_case(case):
                 evlog.append([expr, [[k, x] for k, x in originalAtts.items()], _cval(v)])
             return v
         ctx.evaluate = logging_evaluate
+    evlog2 = None
+    if "evals2" in want:
+        # evaluations keyed by the number of Context operations performed so far (observed only)
+        evlog2, nops = [], [0]
+        real_evaluate2 = ctx.evaluate
+
+        def counting(name):
+            real = getattr(ctx, name)
+
+            def wrapper(*a, **k):
+                nops[0] += 1
+                return real(*a, **k)
+            setattr(ctx, name, wrapper)
+        for name in ("pushLocals", "popLocals", "setLocal", "addGlobal"):
+            counting(name)
+
+        def logging_evaluate2(expr, originalAtts=None):
+            ver = nops[0]
+            v = real_evaluate2(expr, originalAtts)
+            if originalAtts is not None and len(evlog2) < 4000:
+                try:
+                    ln = len(v)
+                except Exception:
+                    ln = None
+                evlog2.append([ver, expr, [[k, x] for k, x in originalAtts.items()], _cval(v) + [ln]])
+            return v
+        ctx.evaluate = logging_evaluate2
     try:
         main.expand(ctx, out)
         res["out"] = out.getvalue()
@@ -277,6 +304,9 @@ def run_case(case):
     if evlog is not None:
         del ctx.evaluate
         res["evals"] = evlog
+    if evlog2 is not None:
+        res["evals2"] = evlog2
+        res["nops"] = nops[0]
     res["canary"] = list(canary())
     if "trace" in want and res["exc"] is None:
         # a second expansion, observed command by command (fresh context, same inputs)
